@@ -28,7 +28,7 @@ def step (_ : Unit) (line : String) : Unit × String :=
       freshStart := b "fresh" "1",
       tlsEnabled := b "tls" "1",
       grpcLoopback := b "loop" "1",
-      httpLoopback := b "loop" "1",
+      httpLoopback := (if (field? fs "hloop").isSome then b "hloop" "1" else b "loop" "1"),
       other := benignOther }
     ((), if validate a then "accept" else "reject")
   | _ => ((), "bad-op")
